@@ -472,9 +472,28 @@ def bundled (impl : String) : P Verdict := do
     | _ => ("?", "?", [])
   pure (verdictOf impl model (some spec) kf s!"bundled/{part}")
 
+/-- `C06.pcomp <kind> <text>` — the `FromStr` of one component type (`Ttl`, `WindowSize`, `TcpOption`,
+`http::Header`) on arbitrary text.  impl: `ok <value>` | `err`.  Spec: the reference readers `refTtl`,
+`refWSize`, `refOpt` (headers: model only). -/
+def compParse (impl : String) : P Verdict := do
+  let kind ← tok; let t ← utext
+  let (model, spec) : String × Option String := match kind with
+    | "ttl" => ((full parseTtl t).map (fun v => "ok " ++ encTtl v) |>.getD "err",
+                some ((refTtl t).map (fun v => "ok " ++ encTtl v) |>.getD "err"))
+    | "wsize" => ((full parseWSize t).map (fun v => "ok " ++ encWSize v) |>.getD "err",
+                  some ((refWSize t).map (fun v => "ok " ++ encWSize v) |>.getD "err"))
+    | "opt" => ((full parseOpt t).map (fun v => "ok " ++ encOpt v) |>.getD "err",
+                some ((refOpt t).map (fun v => "ok " ++ encOpt v) |>.getD "err"))
+    | "hdr" => ((full parseHeaderL t).map (fun v => "ok " ++ encHeader v) |>.getD "err", none)
+    | _ => ("?", none)
+  let kf := if kind == "opt" && decide (Huginn.KF.C06.unknownKindOverflow t)
+    then ["KF.C06.unknownKindOverflow"] else []
+  pure (verdictOf impl model spec kf s!"pcomp/{kind}/{if model == "err" then "err" else "ok"}")
+
 def handlers : List (String × (String → P Verdict)) :=
   [("C06.tcp", tcpRoundTrip), ("C06.ptcp", tcpParse), ("C06.http", httpRoundTrip),
    ("C06.phttp", httpParse), ("C06.line", bundledLine), ("C06.tokp", tokParse), ("C06.tokd", tokDisplay),
-   ("C06.plabel", labelParse), ("C06.doc", docLoad), ("C06.raw", rawLoad), ("C06.bundled", bundled)]
+   ("C06.plabel", labelParse), ("C06.doc", docLoad), ("C06.raw", rawLoad), ("C06.bundled", bundled),
+   ("C06.pcomp", compParse)]
 
 end Huginn.Drv.C06
